@@ -255,6 +255,41 @@ impl Exec {
                 let inst = self.gen(op, "g");
                 out.push(("ret".into(), inst.generate().unwrap_or(Value::Null)));
             }
+            "skip" => {
+                // advance far into the stream without recording it: `bytes` bytes are drawn through fill_bytes
+                // (64 KiB at a time), next_u32 or next_u64; what is recorded is an FNV-1a digest of all of them
+                let n = get_u64(op, "bytes");
+                let via = op["via"].as_str().unwrap().to_string();
+                let inst = self.gen(op, "g");
+                let mut h: u64 = 0xcbf29ce484222325;
+                let mut eat = |b: &[u8]| {
+                    for &x in b {
+                        h ^= x as u64;
+                        h = h.wrapping_mul(0x100000001b3);
+                    }
+                };
+                let mut left = n;
+                let mut buf = vec![0u8; 65536];
+                while left > 0 {
+                    match via.as_str() {
+                        "fill" => {
+                            let k = left.min(65536) as usize;
+                            inst.fill_bytes(&mut buf[..k]);
+                            eat(&buf[..k]);
+                            left -= k as u64;
+                        }
+                        "u32" => {
+                            eat(&inst.next_u32().unwrap().to_le_bytes());
+                            left = left.saturating_sub(4);
+                        }
+                        _ => {
+                            eat(&inst.next_u64().unwrap().to_le_bytes());
+                            left = left.saturating_sub(8);
+                        }
+                    }
+                }
+                out.push(("digest".into(), u64j(h)));
+            }
             "jump" | "long_jump" => {
                 let inst = self.gen(op, "g");
                 let ok = if name == "jump" { inst.jump() } else { inst.long_jump() };
@@ -455,6 +490,12 @@ impl Exec {
                 let inst = self.gen(op, "g");
                 inst.jitter().expect("jitter op on non-jitter").stir();
             }
+            "seek" => {
+                // re-seat the generator's scripted timer cursor (C15: every extraction call sees the same readings)
+                let pos = get_u64(op, "pos") as usize;
+                let inst = self.gen(op, "g");
+                inst.jitter().expect("jitter op on non-jitter").seek(pos);
+            }
             "collide" => {
                 // Search for two different inputs of a pool map with the same image (C15, used only when the
                 // map turned out not to be affine so that rank arguments do not apply).  What is found is a
@@ -463,17 +504,57 @@ impl Exec {
                 let budget = op.get("budget").and_then(|v| v.as_u64()).unwrap_or(1 << 16);
                 let inst = self.gen(op, "g");
                 let j = inst.jitter().expect("jitter op on non-jitter");
-                let mut f = |x: u64, j: &mut dyn JitterOps| -> u64 {
+                let apply = |m: &str, x: u64, j: &mut dyn JitterOps| -> u64 {
                     j.set_pool(x);
-                    if which == "st" {
-                        j.stir();
-                    } else {
-                        let _ = j.timer_stats(false);
+                    match m {
+                        "st" => j.stir(),
+                        "lv" => {
+                            let _ = j.timer_stats(true);
+                        }
+                        _ => {
+                            let _ = j.timer_stats(false);
+                        }
                     }
                     let _ = j.drain_reads();
                     j.pool()
                 };
+                let mut f = |x: u64, j: &mut dyn JitterOps| -> u64 { apply(&which, x, j) };
                 let mut xs: Vec<u64> = vec![0, !0];
+                // closure of a few start values under the code's own pool maps (both fold paths and the stir):
+                // a step whose iteration count depends on the pool merges values that lie on one such orbit
+                {
+                    let mut r = 0xD1B54A32D192ED03u64;
+                    let mut starts: Vec<u64> = vec![0, 1, !0];
+                    for _ in 0..29 {
+                        r ^= r << 13;
+                        r ^= r >> 7;
+                        r ^= r << 17;
+                        starts.push(r);
+                    }
+                    for &s0 in &starts {
+                        for m in ["lp", "lv", "st"] {
+                            let mut x = s0;
+                            for _ in 0..48 {
+                                x = apply(m, x, j);
+                                xs.push(x);
+                            }
+                        }
+                    }
+                }
+                {
+                    // low-weight neighbourhoods of random points: lossy steps (a shift for a rotation, an OR or
+                    // AND for an XOR) merge values that differ in one or two bits
+                    let mut r = 0xA0761D6478BD642Fu64;
+                    for _ in 0..256 {
+                        r ^= r << 13;
+                        r ^= r >> 7;
+                        r ^= r << 17;
+                        xs.push(r);
+                        for a in 0..64 {
+                            xs.push(r ^ (1u64 << a));
+                        }
+                    }
+                }
                 for a in 0..64 {
                     xs.push(1u64 << a);
                     xs.push(!(1u64 << a));
